@@ -401,6 +401,11 @@ class Logix( Message_Router ):
                     attribute.parser.tag_type, (attribute.parser.tag_type,) ), \
                     "Tag type %d in request doesn't fit within Attribute type %d" % ( 
                         data[context].type, attribute.parser.tag_type )
+                if data[context].type != attribute.parser.tag_type:
+                    # A compatible but different type (eg. UINT into INT); every value must also be
+                    # representable in the Attribute's type, or it could never be read back.
+                    for v in data[context].data:
+                        attribute.parser.produce( v )
             else:
                 raise AssertionError( "Unhandled Service Reply" )
 
